@@ -198,6 +198,22 @@ def run(ctx):
             ctx.check(ok and norm(x.args[0]) in ('args.f', 'args.b'), 'C19.4', 'matcher-error:%s' % norm(x.args[0]), f_pa.loc(x), 'a malformed %s matcher propagates as RuntimeError' % norm(x.args[0]),
                       'a malformed matcher given as %s is swallowed' % norm(x.args[0]))
     ctx.floor('C19.4', nm_, 2, 'matcher.parse calls in parse_args')
+    nret = 0
+    for p in paths_of(repo, f_pa, asserts='ignore'):
+        if p.outcome[0] != 'return':
+            continue
+        exits = [e for e in p.events if e.kind == 'call' and e.ftext == 'exit']
+        if exits:
+            continue
+        nret += 1
+        for opt in ('args.f', 'args.b'):
+            suf = re.compile(r'\.parse_args\(.*\)\.%s$' % opt.split('.')[1])
+            given = [v for a, v in p.decisions if suf.search(a.text)] + [not v for a, v in p.decisions if a.text.endswith(' is None') and suf.search(a.text[:-8])]
+            parsed = any(e.kind == 'call' and e.ftext == 'matcher.parse' and suf.search(e.argtext(0) or '') for e in p.events)
+            ctx.check(bool(given) and parsed == given[0], 'C19.4', 'matcher-option-parsed:%s' % opt, f_pa.loc(),
+                      'on every path that returns Arguments, %s is parsed as a matcher exactly when it was given' % opt,
+                      'parse_args can return without parsing %s (given=%s parsed=%s): a malformed matcher is ignored in that mode; path %s' % (opt, given, parsed, p.describe()[:160]))
+    ctx.floor('C19.4', nret, 4, 'returning paths of parse_args')
     mm = repo.modules['main']
     ok = False
     for st in mm.tree.body:
